@@ -88,6 +88,44 @@ class World(c01.World):
         except Exception:
             pass
 
+    def op_post(self, pp, spec, state, op, step, grid, r_user, ctx):
+        """other calculators run on the solved object; afterwards g(r) as the API hands it out must still vanish in every core"""
+        lo = state.get('last_ok')
+        if not lo:
+            return
+        P, res = lo
+        n = len(spec['types'])
+        for fn in op['fns']:
+            if n < 2 and fn in ('chi', 'spinodal_condition', 'solvation_potential'):
+                continue
+            try:
+                with warnings.catch_warnings():
+                    warnings.simplefilter('ignore')
+                    with np.errstate(all='ignore'):
+                        getattr(pp.calculate, fn)(P)
+                ctx.probe('post_' + fn)
+            except Exception:
+                ctx.probe('post_raised')
+        with warnings.catch_warnings():
+            warnings.simplefilter('ignore')
+            g = pp.calculate.pair_correlation(P)
+        gd = np.asarray(g.data, dtype=float)
+        F = np.asarray(res.fun, dtype=float).reshape(grid.N, n, n)
+        cmax = float(np.max(np.abs(oracles.as_real(pp, P.directCorr, grid, 'post'))))
+        for (i, j), mask in oracles.core_masks(spec, r_user).items():
+            if not np.any(mask):
+                continue
+            for (a, b) in ((i, j), (j, i)):
+                Fab = np.maximum(np.abs(F[:, a, b]), np.abs(F[:, b, a]))
+                bound = Fab / r_user + oracles.TOL * (1.0 + cmax) / r_user
+                bad = mask & ~(np.abs(gd[:, a, b]) <= bound)
+                if np.any(bad):
+                    m = int(np.argmax(np.where(bad, np.abs(gd[:, a, b]) - bound, -np.inf)))
+                    raise Violation('g_nonzero_inside_core_after_postprocessing', 'calculate', {
+                        'after': op['fns'], 'pair': [spec['types'][a], spec['types'][b]], 'r': float(r_user[m]), 'g': float(gd[m, a, b]),
+                        'bound': float(bound[m])}, step)
+        ctx.probe('core_checked_after_postprocessing')
+
     def check_g_via_api(self, pp, spec, P, res, grid, r_user, site):
         """g(r) as the public API hands it out (calculate.pair_correlation) is the stored h(r) + 1, also inside the cores"""
         with warnings.catch_warnings():
@@ -186,7 +224,7 @@ class World(c01.World):
     def expected_probes(self, tier):
         return ['contact_point_on_grid', 'unflagged_PercusYevick_core', 'unflagged_HyperNettedChain_core', 'flagged_MeanSphericalApproximation',
                 'flagged_MartynovSarkisov', 'flagged_PercusYevick', 'flagged_HyperNettedChain', 'adversarial_gamma', 'mixed_hard_soft',
-                'closure_evals_checked', 'callbacks_checked', 'last_eval_differs_from_root', 'converged']
+                'closure_evals_checked', 'callbacks_checked', 'last_eval_differs_from_root', 'converged', 'core_checked_after_postprocessing']
 
     def rule(self):
         return ('Generator of C01 restricted to systems with >= 1 hard-core pair (HS/HCLJ/Exponential closed with un-flagged PY/HNC, or any '
